@@ -710,7 +710,7 @@ def check_yaqlized_type(repo, rep):
                 return (None,)
             return None
         it = absint.Interp(repo, mod, oracle)
-        amap = {0: absint.Obj('self')}
+        amap = {0: absint.Obj('self', __class__=mod.cls('Yaqlized'))}
         amap.update(dict(zip(flags, want)))
         try:
             it.run(init.node, amap)
@@ -718,7 +718,9 @@ def check_yaqlized_type(repo, rep):
             raise AnalysisError('R07e: Yaqlized.__init__ uses a construct '
                                 'outside the modelled fragment (%s): not '
                                 'decided' % e)
-        if len(got) != 1 or not isinstance(got[0], absint.Closure):
+        if len(got) != 1 or not (isinstance(got[0], absint.Closure) or (
+                isinstance(got[0], tuple) and got[0] and
+                got[0][0] in ('bound', 'partial'))):
             raise AnalysisError('anchor vanished: the checker Yaqlized '
                                 'hands to GenericType (%r)' % (got,))
         return got[0]
@@ -744,9 +746,12 @@ def check_yaqlized_type(repo, rep):
                 it = absint.Interp(repo, mod, oracle)
                 clo = checkers[want]
                 try:
-                    out = it.run(clo.node, {0: obj, 1: absint.Sym('context'),
-                                            2: absint.Sym('engine')},
-                                 clo.env)
+                    try:
+                        out = ('return', it.invoke(
+                            clo, [obj, absint.Sym('context'),
+                                  absint.Sym('engine')], {}))
+                    except absint._Raise as r:
+                        out = ('raise', r.v)
                 except absint.Unsupported as e:
                     raise AnalysisError(
                         'R07e: the Yaqlized checker uses a construct '
